@@ -1,48 +1,28 @@
-import CandidModel.De
-import CandidModel.Proofs.Leb
+import CandidModel.Proofs.DeHeader
 /-
   C06 — Decoding arbitrary bytes never panics, crashes or over-allocates.
   In the models a Rust `unwrap`, `unreachable!`, out-of-range index or debug-mode overflow is the outcome
   `panic site`; "never panics" is `≠ panic _`.  This file: the leaf readers and the accounting primitive
-  are panic-free for every input; the depth budget turns unbounded nesting into an error.  (Totality of
-  the whole decoder `deAny` by induction over its mutual recursion is work in progress; the correspondence
-  compares the outcome class, including `panic`, on hostile inputs in debug and release builds.)
+  are panic-free for every input; the depth budget turns unbounded nesting into an error; and the whole
+  decoder mirror (header parser, subtype checker, the four mutually recursive entry points with their quota
+  accounting, the argument loop) returns values or an error on every byte string: unconditionally for untyped
+  decoding, and for typed decoding whenever the caller's environment is safe.
 -/
 namespace Candid.Props.C06
 open Candid Candid.Wire Candid.Leb Candid.De
 
-theorem readLebCrate_no_panic (bs : Bytes) : ∀ s, readLebCrate bs ≠ .panic s := by
-  intro s; unfold readLebCrate; split <;> (try split) <;> simp
+theorem readLebCrate_no_panic (bs : Bytes) : ∀ s, readLebCrate bs ≠ .panic s := Readers.readLebCrate_no_panic bs
 
-theorem readSlebCrate_no_panic (bs : Bytes) : ∀ s, readSlebCrate bs ≠ .panic s := by
-  intro s; unfold readSlebCrate; split <;> (try split) <;> (try split) <;> simp
+theorem readSlebCrate_no_panic (bs : Bytes) : ∀ s, readSlebCrate bs ≠ .panic s := Readers.readSlebCrate_no_panic bs
 
-theorem readLenDe_no_panic (bs : Bytes) : ∀ s, readLenDe bs ≠ .panic s := by
-  intro s; unfold readLenDe; split <;> (try split) <;> simp
+theorem readLenDe_no_panic (bs : Bytes) : ∀ s, readLenDe bs ≠ .panic s := Readers.readLenDe_no_panic bs
 
-theorem takeN_no_panic (n : Nat) (bs : Bytes) : ∀ s, takeN n bs ≠ .panic s := by
-  intro s; unfold takeN; split <;> simp
+theorem takeN_no_panic (n : Nat) (bs : Bytes) : ∀ s, takeN n bs ≠ .panic s := Readers.takeN_no_panic n bs
 
-theorem readPrincipal_no_panic (bs : Bytes) : ∀ s, readPrincipal bs ≠ .panic s := by
-  intro s
-  unfold readPrincipal
-  split
-  · simp
-  · split
-    · simp
-    · have h := readLebCrate_no_panic
-      split
-      · split
-        · simp
-        · exact takeN_no_panic _ _ s
-      · simp
-      · rename_i p hp; exact absurd hp (h _ p)
+theorem readPrincipal_no_panic (bs : Bytes) : ∀ s, readPrincipal bs ≠ .panic s := Readers.readPrincipal_no_panic bs
 
 /-- the 128-bit and big-number readers of C09 are total: `Nat::decode` on any input is a value or an error -/
-theorem natDecode_no_panic (bs : Bytes) : ∀ s, Impl.natDecode bs ≠ .panic s := by
-  intro s
-  rw [natDecode_spec]
-  split <;> simp
+theorem natDecode_no_panic (bs : Bytes) : ∀ s, Impl.natDecode bs ≠ .panic s := Readers.natDecode_no_panic bs
 
 theorem u128Decode_no_panic (bs : Bytes) : ∀ s, Impl.decodeNat128 bs ≠ .panic s := by
   intro s
@@ -72,5 +52,38 @@ theorem addCost_no_panic (st : St) (c : Nat) : ∀ p, addCost st c ≠ .panic p 
   split
   · simp
   · split <;> simp
+
+/-- **Untyped decoding of any byte string returns values or an error — never a panic**: the header parser, the
+subtype checks on references, the four mutually recursive decoding entry points (any depth budget), option
+back-tracking, skipping, the argument loop and the quota accounting, under every quota configuration. -/
+theorem untyped_decoding_total (bs : Bytes) (env : Env) (cfg : Config) :
+    ∀ p, decodeWithConfig bs env [] cfg ≠ .panic p :=
+  decodeUntyped_np bs env cfg
+
+/-- **Typed decoding is total whenever the working environment is safe** (every name resolves, no placeholder
+types — what `check_prog` and `candid_type` produce): for every byte string, expected types and quotas. -/
+theorem typed_decoding_total (bs : Bytes) (env : Env) (expected : List Ty) (cfg : Config)
+    (hsafe : ∀ h body, parseHeader bs = .ok (h, body) →
+      Sub.SafeEnv (workEnv h env expected).1 ∧
+      (∀ e ∈ (workEnv h env expected).2, Sub.safeTy (workEnv h env expected).1 e = true) ∧
+      (∀ w ∈ h.args, Sub.safeTy (workEnv h env expected).1 w = true)) :
+    ∀ p, decodeWithConfig bs env expected cfg ≠ .panic p :=
+  decodeWithConfig_np bs env expected cfg hsafe
+
+/-- a header that parses yields a safe table, and the argument types refer into it -/
+theorem parsed_table_is_safe (bs : Bytes) (h : Header) (body : Bytes) (hp : parseHeader bs = .ok (h, body)) :
+    Sub.SafeEnv h.table ∧ ∀ w ∈ h.args, Sub.safeTy h.table w = true :=
+  parseHeader_safe bs h body hp
+
+/-- the header parser itself is total -/
+theorem header_parser_total (bs : Bytes) : ∀ p, parseHeader bs ≠ .panic p := parseHeader_onp bs _
+
+/-- the subtype checker does not panic on safe types of a safe environment, at any depth, with any memo -/
+theorem subtype_checker_total (env : Env) (hse : Sub.SafeEnv env) (n : Nat) (g : Sub.Gamma) (a b : Ty)
+    (ha : Sub.safeTy env a = true) (hb : Sub.safeTy env b = true) : ∀ p, Sub.subAlg env n g a b ≠ .panic p :=
+  Sub.subAlg_np env hse n g a b ha hb
+
+/-- non-vacuity: the empty message `DIDL\00\00` parses, and its (empty) table is safe -/
+example : ∃ h body, parseHeader [0x44, 0x49, 0x44, 0x4c, 0, 0] = .ok (h, body) := ⟨_, _, rfl⟩
 
 end Candid.Props.C06
